@@ -512,9 +512,12 @@ impl Generator {
             if !allowed.is_empty() {
                 let n = [1usize, 1, 1, 2, 2, 3][rng.usize_below(6)];
                 let installed_morx = t.surgery.iter().any(|s| matches!(s, Surgery::InstallMorx { .. }));
+                let installed_kern = t.surgery.iter().any(|s| matches!(s, Surgery::InstallKern { .. }));
                 let targets: Vec<String> = (0..2)
                     .map(|_| {
-                        if installed_morx && rng.pct(75) {
+                        if installed_kern && rng.pct(75) {
+                            "kern".to_string()
+                        } else if installed_morx && rng.pct(75) {
                             "morx".to_string()
                         } else {
                             rng.pick(&allowed).to_string()
@@ -1145,15 +1148,17 @@ fn gen_surgery_gpos(rng: &mut Rng, info: &FontInfo) -> Option<Surgery> {
 /// run sees it (tables installed, text generation focused on the glyphs morx is keyed on).
 fn gen_install(rng: &mut Rng, info: &FontInfo, prop: &str) -> Option<(FontInfo, Vec<Surgery>)> {
     // percentages: morx, bitmaps, vertical
-    let (p_morx, p_bitmap, p_vert) = match prop {
-        "C02" => (14, 0, 10),
-        "C03" => (8, 8, 8),
-        "C09" => (0, 0, 6),
-        _ => (7, 8, 6),
+    let (p_morx, p_kern, p_bitmap, p_vert) = match prop {
+        "C02" => (14, 8, 0, 10),
+        "C03" => (8, 3, 8, 8),
+        "C09" => (0, 0, 0, 6),
+        _ => (7, 4, 8, 6),
     };
     let mut surgeries = Vec::new();
     let mut focus: Option<Vec<u32>> = None;
-    if rng.pct(p_morx) && info.char_gids.len() >= 4 && info.num_glyphs >= 3 {
+    let want_morx = rng.pct(p_morx);
+    let want_kern = !want_morx && rng.pct(p_kern);
+    if (want_morx || want_kern) && info.char_gids.len() >= 4 && info.num_glyphs >= 3 {
         // a run of neighbouring mapped characters with distinct non-zero glyph ids
         let want = 3 + rng.usize_below(22);
         let start = rng.usize_below(info.char_gids.len());
@@ -1173,15 +1178,22 @@ fn gen_install(rng: &mut Rng, info: &FontInfo, prop: &str) -> Option<(FontInfo, 
                 // order other than first appearance
                 glyphs.reverse();
             }
-            surgeries.push(Surgery::InstallMorx {
-                glyphs,
-                variant: rng.below(1 << 20),
-                hazard: if rng.pct(12) {
-                    Some(rng.below(u64::from(crate::morx_build::HAZARD_COUNT)) as u32)
-                } else {
-                    None
-                },
-            });
+            if want_morx {
+                surgeries.push(Surgery::InstallMorx {
+                    glyphs,
+                    variant: rng.below(1 << 20),
+                    hazard: if rng.pct(12) {
+                        Some(rng.below(u64::from(crate::morx_build::HAZARD_COUNT)) as u32)
+                    } else {
+                        None
+                    },
+                });
+            } else {
+                surgeries.push(Surgery::InstallKern {
+                    glyphs,
+                    variant: rng.below(1 << 20),
+                });
+            }
             chars.sort_unstable();
             focus = Some(chars);
         }
@@ -1218,7 +1230,11 @@ fn gen_install(rng: &mut Rng, info: &FontInfo, prop: &str) -> Option<(FontInfo, 
     }
     if let Some(f) = focus {
         modified.chars = f;
-        modified.gsub_features.clear();
+        if want_morx {
+            modified.gsub_features.clear();
+        } else {
+            modified.gpos_features.clear();
+        }
     }
     Some((modified, surgeries))
 }
